@@ -25,7 +25,14 @@ def _c03_block_larger_than_data_base(v):
     return a is not None and (a & 0xFFFFFFFF) // block_bytes * block_bytes < (1 << 14)
 
 
-MATCHERS = {"c03_block_larger_than_data_base": _c03_block_larger_than_data_base}
+def _c04_load_by_name_into_x0(v):
+    """load-by-name with rd = x0: the emitted group builds the address in rd itself (x0 cannot hold it) and
+    therefore reads address 0 and faults, whereas the documented expansion (t0 = &var; rd = M[t0]) has no fault."""
+    st = v.get("stmt") or {}
+    return v.get("kind") == "pseudo-effect" and st.get("k") == "ldv" and st.get("rd") == 0 and "group faults" in v.get("msg", "")
+
+
+MATCHERS = {"c03_block_larger_than_data_base": _c03_block_larger_than_data_base, "c04_load_by_name_into_x0": _c04_load_by_name_into_x0}
 
 
 def load():
